@@ -8,13 +8,25 @@
 (* specification predicts for EVERY execution: that of running alone.  Random *)
 (* numbers and the initial seed appear in it as tokens (>= 10000): equal      *)
 (* tokens are equal numbers in all executions of the case.                    *)
+(* Fam = "shell": programs over the instructions that START COMMANDS, for NG   *)
+(* executions that run freely at the same time (no schedule is imposed: the    *)
+(* step that matters lies inside one instruction), every execution with an     *)
+(* interpreter and a COMMAND STRING of its own (CmdOf(i); the real execution    *)
+(* gets it as the variable id = CmdVal(CmdOf(i)), the command is `echo <id>`).  *)
+(* The case holds, for every execution i, what running alone with ITS command  *)
+(* string gives (MC_SharedProgram with Cmds = TRUE: Equivalent over all         *)
+(* interleavings of the two steps of starting a command).                       *)
 EXTENDS SharedProgram, Json
 
-CONSTANTS MaxLen, Rich
+CONSTANTS MaxLen, Rich, Fam, NG
 
 \* regular expression 3 (/1|10/) is used both as the compiled literal ("match") and, with the same source, on the
 \* run-time path ("rlen")
-Menu == { [op |-> "set", g |-> 1, k |-> 3], [op |-> "set", g |-> 2, k |-> 4],
+CmdMenu == { [op |-> "set", g |-> 1, k |-> 3], [op |-> "print", g |-> 1, k |-> 0],
+             [op |-> "system", g |-> 1, k |-> 0], [op |-> "cmdgetline", g |-> 1, k |-> 0], [op |-> "cmdgetline", g |-> 2, k |-> 0],
+             [op |-> "printcmd", g |-> 1, k |-> 0], [op |-> "close", g |-> 1, k |-> 0] }
+Menu == IF Fam = "shell" THEN CmdMenu ELSE
+        { [op |-> "set", g |-> 1, k |-> 3], [op |-> "set", g |-> 2, k |-> 4],
           [op |-> "add", g |-> 1, k |-> 2],
           [op |-> "match", g |-> 2, k |-> 3], [op |-> "rlen", g |-> 2, k |-> 3],
           [op |-> "call", g |-> 1, k |-> 0],
@@ -25,40 +37,54 @@ Menu == { [op |-> "set", g |-> 1, k |-> 3], [op |-> "set", g |-> 2, k |-> 4],
                              [op |-> "call", g |-> 2, k |-> 0], [op |-> "srand", g |-> 1, k |-> 2],
                              [op |-> "print", g |-> 1, k |-> 0], [op |-> "print", g |-> 2, k |-> 0] } ELSE {})
 
-VARIABLES body, program, interp, runs, sched, emitted
-vars == <<body, program, interp, runs, sched, emitted>>
+VARIABLES body, program, shell, interp, runs, sched, emitted
+vars == <<body, program, shell, interp, runs, sched, emitted>>
 
 Init ==
-  /\ body = <<>> /\ program = <<>> /\ interp = [i \in 1..NProc |-> NoInterp] /\ runs = [i \in 1..NProc |-> 0]
+  /\ body = <<>> /\ program = <<>> /\ shell = NoShell /\ interp = [i \in 1..NProc |-> NoInterp] /\ runs = [i \in 1..NProc |-> 0]
   /\ sched = <<>> /\ emitted = FALSE
 
 \* choose the program instruction by instruction, then freeze it
 Grow ==
   /\ program = <<>> /\ Len(body) < MaxLen
   /\ \E m \in Menu : body' = Append(body, m)
-  /\ UNCHANGED <<program, interp, runs, sched, emitted>>
+  /\ UNCHANGED <<program, shell, interp, runs, sched, emitted>>
 Freeze ==
   /\ program = <<>>
   /\ program' = MkProgram(body)
-  /\ UNCHANGED <<body, interp, runs, sched, emitted>>
+  /\ UNCHANGED <<body, shell, interp, runs, sched, emitted>>
 New(i) ==
+  /\ Fam = "shared"
   /\ program # <<>> /\ interp[i].status \in {"none", "done"} /\ runs[i] < MaxRuns
-  /\ interp' = [interp EXCEPT ![i] = StartInterp(NoInterp)] /\ runs' = [runs EXCEPT ![i] = @ + 1]
+  /\ interp' = [interp EXCEPT ![i] = StartInterpOf(i, NoInterp)] /\ runs' = [runs EXCEPT ![i] = @ + 1]
   /\ sched' = Append(sched, i)
-  /\ UNCHANGED <<body, program, emitted>>
+  /\ UNCHANGED <<body, program, shell, emitted>>
 Step(i) ==
+  /\ Fam = "shared"
   /\ program # <<>> /\ interp[i].status = "run"
-  /\ LET e == Exec1(program, interp[i], i)
-     IN interp' = [interp EXCEPT ![i] = e.it] /\ program' = e.pr
+  /\ LET e == ExecP(program, shell, interp[i], i)
+     IN interp' = [interp EXCEPT ![i] = e.it] /\ program' = e.pr /\ shell' = e.sh
   /\ sched' = Append(sched, i)
   /\ UNCHANGED <<body, runs, emitted>>
 AllDone == \A i \in 1..NProc : interp[i].status = "done" /\ runs[i] = MaxRuns
 Emit ==
+  /\ Fam = "shared"
   /\ program # <<>> /\ AllDone /\ ~emitted
   /\ PrintT(ToJson([fam |-> "shared", body |-> body, nproc |-> NProc, runs |-> MaxRuns, sched |-> sched,
                     apis |-> [i \in 1..NProc |-> ApiOf(i)],
                     expect |-> [out |-> Solo(body).out, g |-> Solo(body).g]]))
-  /\ emitted' = TRUE /\ UNCHANGED <<body, program, interp, runs, sched>>
-Next == Grow \/ Freeze \/ (\E i \in 1..NProc : New(i) \/ Step(i)) \/ Emit
+  /\ emitted' = TRUE /\ UNCHANGED <<body, program, shell, interp, runs, sched>>
+\* a program that starts commands, for NG free-running executions: one prediction per execution
+StartsCommand(b) == \E j \in 1..Len(b) : b[j].op \in CmdOps
+EmitShell ==
+  /\ Fam = "shell"
+  /\ program # <<>> /\ ~emitted /\ StartsCommand(body)
+  /\ LET j == ToJson([fam |-> "shell", body |-> body, ng |-> NG,
+                       ids |-> [i \in 1..NG |-> CmdVal(CmdOf(i))],
+                       apis |-> [i \in 1..NG |-> ApiOf(i)],
+                       expect |-> [i \in 1..NG |-> [out |-> SoloFor(body, CmdOf(i)).out, g |-> SoloFor(body, CmdOf(i)).g]]])
+     IN Len(j) > 0 /\ PrintT(j)
+  /\ emitted' = TRUE /\ UNCHANGED <<body, program, shell, interp, runs, sched>>
+Next == Grow \/ Freeze \/ (\E i \in 1..NProc : New(i) \/ Step(i)) \/ Emit \/ EmitShell
 Spec == Init /\ [][Next]_vars
 =============================================================================
